@@ -5,6 +5,8 @@ From Coq Require Import List String NArith ZArith Bool.
 From Piko Require Import Base.Maps Base.Strs Gossip.Types Gossip.Local Gossip.Apply.
 From Piko Require Import GossipP.LocalP GossipP.ApplyP GossipP.WatchP GossipP.MemberP.
 From Piko Require Import FD.FD Compose.LiveFD GossipP.RediscoverP.
+From Coq Require Import Permutation.
+From Piko Require Import Gossip.Round GossipP.RoundP.
 Import ListNotations.
 Open Scope string_scope. Open Scope list_scope. Open Scope N_scope.
 
@@ -129,6 +131,24 @@ Theorem C11_forgotten_live_node_relearned :
   mem (c_local a) (c_nodes (fst (apply_digest b (digest_of a)))) = true.
 Proof. exact forgotten_live_node_relearned. Qed.
 
+(* "... is restored if it is heard from again": for that an unreachable peer has to be talked to. Every gossip round
+   (gossip.go gossipRound, Gossip/Round.v) sends a digest to one of the unreachable peers whenever there is one, every
+   unreachable peer being the target for a whole residue class of the random number; the reply it sends if it is alive is
+   what C11_heard_is_reachable starts from. And a round never addresses the node itself nor a peer that has left (unless
+   the peer is also still marked unreachable) - for every order of Go's map iteration and all random numbers. *)
+Theorem C11_round_contacts_unreachable :
+  forall lives unreach p, In p unreach ->
+  exists i, (i < List.length unreach)%nat /\
+  forall r1 r2, Nat.modulo r2 (List.length unreach) = i -> In p (round_targets lives unreach r1 r2).
+Proof. exact round_reaches_unreach. Qed.
+
+Theorem C11_round_never_self_nor_departed :
+  forall c lives unreach r1 r2 x,
+  Permutation lives (live_peers c) -> Permutation unreach (unreach_peers c) ->
+  In x (round_targets lives unreach r1 r2) ->
+  In x (values (c_nodes c)) /\ n_id x <> c_local c /\ (n_left x = true -> n_unreach x = true).
+Proof. exact round_targets_sound. Qed.
+
 Print Assumptions C11_no_relearn_left.
 Print Assumptions C11_left_is_final.
 Print Assumptions C11_leave_marks_and_stamps.
@@ -140,3 +160,5 @@ Print Assumptions C11_refuted_zombie.
 Print Assumptions C11_silent_stays_unreachable.
 Print Assumptions C11_heard_is_reachable.
 Print Assumptions C11_forgotten_live_node_relearned.
+Print Assumptions C11_round_contacts_unreachable.
+Print Assumptions C11_round_never_self_nor_departed.
